@@ -552,6 +552,22 @@ pub fn gen_peer(rng: &mut Rng, d: &Driver, pv: &mut PeerView, p: &Profile) -> Op
 /// Illegal / unusual peer frames (the malformed stream).
 pub fn gen_chaos(rng: &mut Rng, _d: &Driver, pv: &mut PeerView) -> Value {
     let sid_any = if pv.streams.is_empty() { 1 } else { rng.pick(&pv.streams).sid };
+    if _d.cfg.role_client && rng.chance(1, 3) {
+        // RFC 9113 6.6: PUSH_PROMISE on a request whose response the peer has already ended (the endpoint's side still open)
+        let cand = pv.streams.iter().find(|s| !s.initiated_by_peer && !s.peer_open && s.ep_open && !s.reset && s.peer_head_sent
+            && _d.handles.iter().any(|h| h.sid == s.sid && !h.send_done && h.send.is_some())).map(|s| s.sid);
+        if let Some(parent) = cand {
+            let sid = pv.next_peer_sid;
+            pv.next_peer_sid += 2;
+            let block = wire::hpack_literal(&[
+                (b":method".to_vec(), b"GET".to_vec()),
+                (b":scheme".to_vec(), b"https".to_vec()),
+                (b":path".to_vec(), b"/pushed".to_vec()),
+                (b":authority".to_vec(), b"example.com".to_vec()),
+            ]);
+            return json!({"op":"peer","what":{"chaos":"push-on-half-closed-remote","sid":parent,"promised":sid},"bytes":wire::push_promise(parent, sid, &block)});
+        }
+    }
     let k = rng.below(16);
     let (bytes, what): (Vec<u8>, &str) = match k {
         0 => (wire::window_update(sid_any, 0), "wu-zero-stream"),
@@ -1279,6 +1295,40 @@ pub fn run_random(d: &mut Driver, rng: &mut Rng, p: &Profile, steps: usize) {
                 m.push(json!({"op":"conn_poll"}));
                 ended = true;
                 pv.queue.extend(m);
+                continue;
+            }
+        }
+        if p.w_chaos > 0 && !p.fuzz && d.cfg.role_client {
+            if let Some(op) = pv.queue.pop_front() {
+                log_op(&op);
+                d.exec(&op);
+                done += 1;
+                continue;
+            }
+            if done == 1 && d.cfg.enable_push != Some(false) && !pv.goaway_seen && rng.chance(1, 6) {
+                // C09, state-dependent violation (RFC 9113 6.6): a request whose body is still open gets its complete response
+                // (END_STREAM on the response head), then a PUSH_PROMISE arrives on that stream: neither open nor
+                // half-closed (local) from the client's point of view -> connection error PROTOCOL_ERROR
+                let sid = d.handles.iter().map(|h| h.sid).filter(|s| s % 2 == 1).max().map(|s| s + 2).unwrap_or(1);
+                let promised = pv.next_peer_sid;
+                pv.next_peer_sid += 2;
+                let head = resp_block(rng, 200);
+                let block = wire::hpack_literal(&[
+                    (b":method".to_vec(), b"GET".to_vec()),
+                    (b":scheme".to_vec(), b"https".to_vec()),
+                    (b":path".to_vec(), b"/pushed".to_vec()),
+                    (b":authority".to_vec(), b"example.com".to_vec()),
+                ]);
+                pv.queue.extend(vec![
+                    json!({"op":"write_mode","mode":"all"}),
+                    json!({"op":"send_request","sr":0,"eos":false,"method":"POST"}),
+                    json!({"op":"conn_poll"}),
+                    peer_bytes(wire::headers(sid, &head, true, 0), json!({"t":"HEADERS","sid":sid,"eos":true})),
+                    json!({"op":"conn_poll"}),
+                    json!({"op":"peer","what":{"chaos":"push-on-half-closed-remote","sid":sid,"promised":promised},"bytes":wire::push_promise(sid, promised, &block)}),
+                    json!({"op":"conn_poll"}),
+                    json!({"op":"conn_poll"}),
+                ]);
                 continue;
             }
         }
